@@ -82,6 +82,9 @@ def _package_constant(name):
         for st in m.tree.body:
             if isinstance(st, ast.Assign) and any(isinstance(t, ast.Name) and t.id == name for t in st.targets):
                 found.append(st.value)
+    if len(found) > 1 and len({ast.dump(f) for f in found}) == 1:
+        # the same definition in several modules (each has its own serial counter): any of them stands for it
+        return found[0]
     return found[0] if len(found) == 1 else None
 
 
